@@ -249,6 +249,11 @@ func (c BQTimestampCodec) Read(data []byte, ptr unsafe.Pointer, wt plenccore.Wir
 	return n, nil
 }
 
+func (c BQTimestampCodec) Size(ptr unsafe.Pointer, tag []byte) int {
+	ts := (*time.Time)(ptr).UnixMicro()
+	return c.FlatIntCodec.Size(unsafe.Pointer(&ts), tag)
+}
+
 func (c BQTimestampCodec) Append(data []byte, ptr unsafe.Pointer, tag []byte) []byte {
 	ts := (*time.Time)(ptr).UnixMicro()
 	return c.FlatIntCodec.Append(data, unsafe.Pointer(&ts), tag)
